@@ -19,9 +19,12 @@ var verifC06Templates = []string{
 	"match (zzva)-[zzvb]->(zzvc) where zzva.foo = 'y' and zzvc.name = 'x' return zzva",
 	"match (zzva) where zzva.name = $zzpa and zzva.id = $zzpb return zzva.name as zzaa, zzva.id as zzab",
 	"match (zzva) where zzva.name = $zzpa with zzva unwind [1, 2] as zzvb return zzvb",
+	"match zzvp = (zzva)-[:MemberOf]->(zzvb) match zzvc = (zzvd)-[:AdminTo]->(zzve) return relationships(zzvp) as zzaa, zzvc as zzab",
+	"match zzvp = (zzva)-[:MemberOf]->(zzvb) match zzvc = (zzvd)-[:AdminTo]->(zzve) return nodes(zzvp) as zzaa, nodes(zzvc) as zzab",
+	"match (zzva) where zzva.name = $zzpa with zzva.name as zzvb match (zzvc) where zzvc.name = zzvb and zzvc.other = $zzpa return zzvc",
 }
 
-var verifC06Markers = []string{"zzva", "zzvb", "zzvc", "zzvp", "zzpa", "zzpb", "zzaa", "zzab"}
+var verifC06Markers = []string{"zzva", "zzvb", "zzvc", "zzvd", "zzve", "zzvp", "zzpa", "zzpb", "zzaa", "zzab"}
 
 func verifContains(s, sub string) bool {
 	for i := 0; i+len(sub) <= len(s); i++ {
@@ -90,6 +93,12 @@ func VerifC06Rename(t, n int) {
 	if err != nil {
 		return
 	}
+	verifSameStatementUpToAliases(sql, bsql, out, bout, subst)
+}
+
+// verifSameStatementUpToAliases: sql is bsql with the renamed names at output-alias
+// positions only; the generated parameters are the same.
+func verifSameStatementUpToAliases(sql, bsql string, out, bout map[string]any, subst map[string]string) {
 	ut, bt := verifLexSQL(sql), verifLexSQL(bsql)
 	verifrt.Assert(len(ut) == len(bt), "renaming user names keeps the SQL token count")
 	if len(ut) != len(bt) {
@@ -100,6 +109,9 @@ func VerifC06Rename(t, n int) {
 		utext, btext := sql[u.start:u.end], bsql[b.start:b.end]
 		if b.kind == 'w' {
 			if r, isName := subst[btext]; isName {
+				if len(r) > 1 && r[0] == '`' {
+					r = r[1 : len(r)-1] // an escaped name denotes its body
+				}
 				// an output column alias: the user's spelling, bare or quoted
 				if u.kind == 'q' {
 					verifrt.Assert(verifUnquoteSQL(utext) == r, "an output alias carries the renamed spelling")
@@ -122,6 +134,66 @@ func VerifC06Rename(t, n int) {
 			verifrt.Assert(verifrt.DeepEqual(v, bv), "renaming user names keeps the parameter values")
 		}
 	}
+}
+
+// VerifC06Capture: one user chosen variable or alias of the template is given a name the
+// translator itself generates - every identifier of the form letters+digits that occurs in
+// the SQL of the original spelling, and pc0..pc3 - or the escaped spelling `$p` of a parameter
+// of the query. Nothing but output aliases may change, and no error or panic may appear.
+func VerifC06Capture(t int) {
+	text := verifC06Templates[t]
+	bq, err := verifNativeParse(text, nil)
+	verifrt.Assert(err == nil, "template parses")
+	params := map[string]any{"zzpa": "v", "zzpb": int64(7)}
+	bsql, bout, berr := verifTranslate(bq, params)
+	verifrt.Assert(berr == nil, "the original spelling translates")
+	if err != nil || berr != nil {
+		return
+	}
+	pool := []string{"pc0", "pc1", "pc2", "pc3"}
+	for _, tok := range verifLexSQL(bsql) {
+		word := bsql[tok.start:tok.end]
+		if tok.kind != 'w' || len(word) < 2 || len(word) > 8 {
+			continue
+		}
+		last := word[len(word)-1]
+		first := word[0]
+		if last < '0' || last > '9' || first < 'a' || first > 'z' {
+			continue
+		}
+		known := false
+		for _, have := range pool {
+			known = known || have == word
+		}
+		if !known {
+			pool = append(pool, word)
+		}
+	}
+	var renamable []string
+	for _, m := range verifC06Markers {
+		if !verifContains(text, m) {
+			continue
+		}
+		if m[2] == 'p' {
+			pool = append(pool, "`$"+m+"`")
+		} else {
+			renamable = append(renamable, m)
+		}
+	}
+	marker := renamable[verifrt.NondetChoice("renamed user name", len(renamable))]
+	name := pool[verifrt.NondetChoice("generated or escaped name", len(pool))]
+	subst := map[string]string{marker: name}
+	q, err := verifNativeParse(text, subst)
+	if err != nil {
+		return
+	}
+	sql, out, err := verifTranslate(q, params)
+	verifrt.Observe(marker, name)
+	verifrt.Assert(err == nil, "a user name equal to a generated name never turns a translatable query into an error")
+	if err != nil {
+		return
+	}
+	verifSameStatementUpToAliases(sql, bsql, out, bout, subst)
 }
 
 func VerifC06Witness() {
